@@ -549,3 +549,5 @@ def run(ck):
                     'destructor)', 'WHO', breaks='recreating it forgets outstanding calls: their replies are refused '
                     'and no NoReply is ever sent', floor=1)
         lib.state_lifetime(prog, r, [('BusConnections', 'pending_replies'), ('BusContext', 'connections')])
+        from rules.C06 import c06_10
+        c06_10(ck, prog, 'C09.7')
